@@ -131,3 +131,39 @@ Theorem old_fields_needs_covers_refuted :
   map v_name (data_vars file_z) = ["tb"] /\
   map v_name (data_vars (fst (append new_code true no_opts file_z [f_lying] [f_newaux]))) = ["new"].
 Proof. vm_compute. repeat split. Qed.
+
+(* C17-fix2-1 (found by the deepening pass): at /repo HEAD the dry run gave an
+   axis without dimension coordinate the first registered dimension of the
+   same size that is spanned by an equal construct - not necessarily the
+   dimension the axis has in the file.  Here r lives on d_time in the file,
+   but the dry run puts it on time (because of the equal auxiliary coordinate
+   A), registers B under the dimensions [time] with the name B_d, and the
+   appended field n(time) is given the coordinate variable B_d(d_time). *)
+Definition cA : content := mk_c KAux [("long_name", "A")] [4%Z] 1.
+Definition cB : content := mk_c KAux [("long_name", "B")] [4%Z] 2.
+Definition bare (nv : string) (d : option string) (t : Z) (aux : list cst) : field :=
+  {| f_ncvar := Some nv; f_props := []; f_gl := []; f_groups := []; f_axes := [{| a_size := 4; a_ncdim := d |}];
+     f_daxes := [0%nat]; f_tok := t; f_dim := []; f_aux := aux; f_anc := []; f_msr := []; f_ref := None |}.
+Definition mkv n d a r := {| v_name := n; v_dims := d; v_attrs := a; v_refs := r |}.
+Definition file_two : file :=
+  {| d_dims := [("time", 4%Z); ("d_time", 4%Z)];
+     d_vars := [mkv "A_t" ["time"] [("long_name", "A")] []; mkv "q" ["time"] [] [("coordinates", [("", "A_t")])];
+                mkv "B_d" ["d_time"] [("long_name", "B")] []; mkv "A_d" ["d_time"] [("long_name", "A")] [];
+                mkv "r" ["d_time"] [] [("coordinates", [("", "B_d"); ("", "A_d")])]];
+     d_gatts := [("Conventions", "CF-1.11")] |}.
+Definition fq := bare "q" (Some "time") 1 [mk_k (Some "A_t") cA [0%nat]].
+Definition fr := bare "r" (Some "d_time") 2 [mk_k (Some "B_d") cB [0%nat]; mk_k (Some "A_d") cA [0%nat]].
+Definition fnew := bare "n" None 3 [mk_k None cA [0%nat]; mk_k None cB [0%nat]].
+
+Definition dims_of_var (fl : file) (n : string) : list string :=
+  match lookup_var fl n with Some v => v_dims v | None => [] end.
+
+Theorem dry_run_dimension_refuted :
+  let bad := fst (append head_code true no_opts file_two [fq; fr] [fnew]) in
+  let good := fst (append new_code true no_opts file_two [fq; fr] [fnew]) in
+  dims_of_var bad "n" = ["time"] /\ refs_of bad "n" = [("coordinates", [("", "A_t"); ("", "B_d")])] /\
+  dims_of_var bad "B_d" = ["d_time"] /\
+  dims_of_var good "n" = ["time"] /\ refs_of good "n" = [("coordinates", [("", "A_t"); ("", "auxiliary")])] /\
+  dims_of_var good "auxiliary" = ["time"] /\
+  covers head_code file_two [fq; fr] = false /\ covers new_code file_two [fq; fr] = true.
+Proof. vm_compute. repeat split. Qed.
